@@ -93,9 +93,10 @@ func threadBlocks(fn *ssa.Function) map[*ssa.BasicBlock]bool {
 					known = true
 				}
 			}
-			if known {
-				m[x.Block()] = true
-			}
+			// every φ that feeds a test is followed per path: even when no operand is a constant, the test then
+			// reads the operand that flowed in (resolvedCond), e.g. the error of the call made on this path
+			known = true
+			m[x.Block()] = true
 			for _, e := range x.Edges {
 				if p, isPhi := e.(*ssa.Phi); isPhi && p != x {
 					visit(p, depth+1)
@@ -136,6 +137,13 @@ func nilness(v ssa.Value, env phiEnv, depth int) int {
 		return nilness(x.X, env, depth+1)
 	case *ssa.ChangeType:
 		return nilness(x.X, env, depth+1)
+	case *ssa.UnOp:
+		// a sentinel error variable of a package (`var ErrX = errors.New(…)`) is not nil
+		if g, isG := x.X.(*ssa.Global); isG && x.Op == token.MUL && strings.HasPrefix(g.Name(), "Err") {
+			if _, isIface := x.Type().Underlying().(*types.Interface); isIface {
+				return 1
+			}
+		}
 	case *ssa.Call:
 		// constructors that never return nil
 		if f := x.Call.StaticCallee(); f != nil {
